@@ -26,6 +26,11 @@ def lib(name):
     return importlib.import_module('elftools.' + name if name else 'elftools')
 
 
+class ReadBudgetExceeded(BaseException):
+    """a stream performed more reads than the budget its harness set (termination checks); BaseException so that no
+    `except Exception` of the library or of a harness swallows it"""
+
+
 def norm(v):
     """JSON-normal form of an observed (concrete) value"""
     if v is None or isinstance(v, (bool, str)):
